@@ -47,7 +47,17 @@ def make_initial(source, bufsize, max_faults, encoding=0, expect=None):
 
         ctx = Ctx(source, bufsize, max_faults, encoding, expect)
         ctx.sock = FakeSock(source, chooser=ch, max_faults=max_faults)
-        ctx.wrap = SocketWrapper(ctx.sock, encoding=encoding, bufsize=bufsize)
+        try:
+            ctx.wrap = SocketWrapper(ctx.sock, encoding=encoding, bufsize=bufsize)
+        except bfs.Pruned:
+            raise
+        except Exception as err:  # pylint: disable=broad-except
+            # the constructor performs the first receive: whatever the socket answers (time-out,
+            # OS error, close), a wrapper must come into being
+            ctx.violations.append(("wrapper-raises:constructor",
+                                   f"SocketWrapper(...) raised {type(err).__name__}: {err} when the "
+                                   f"first receive answered {ctx.sock.log[-1:] }"))
+            ctx.wrap = None
         return ctx
 
     return initial
@@ -55,6 +65,8 @@ def make_initial(source, bufsize, max_faults, encoding=0, expect=None):
 
 def step(ctx, op, ch, midseen):
     viol = []
+    if ctx.wrap is None:  # no wrapper came into being (already reported): nothing to explore
+        return viol
     sock, wrap, src = ctx.sock, ctx.wrap, ctx.source
     sock.ch = ch
     before = len(sock.log)
@@ -137,6 +149,8 @@ def _line_progress(ctx, before):
 
 
 def canon_of(ctx):
+    if ctx.wrap is None:
+        return ("no-wrapper",)
     return (bfs.snapshot(ctx.wrap), ctx.sock.pos, ctx.sock.nfaults, ctx.sock.closed_seen,
             ctx.delivered)
 
@@ -326,6 +340,7 @@ def judge_instances(case, out):
     out.obs = core.h64(repr(srcs))
 
 
+@core.guard
 def judge(case):
     out = core.Outcome()
     if case["kind"] == "instances":
